@@ -35,15 +35,15 @@ pub fn generate(ctx: &mut Ctx) {
         }
         bi += 1;
     }
-    let n = ctx.random_budget(480, 240_000, 3_000_000);
+    let n = ctx.random_budget(240, 240_000, 3_000_000);
     for i in 0..n {
         let mut rng = ctx.rng("ref", i);
         let mut o = gen::Opts::new(rng.chance(1, 2));
-        o.long = true;
+        o.long = !ctx.tiny() || rng.chance(1, 8);
         o.max_segs = 40;
         o.bad_pct = true;
         let mut s = gen::reference(&mut rng, o);
-        if rng.chance(1, 400) {
+        if !ctx.tiny() && rng.chance(1, 400) {
             // 64 KiB input: a very long path
             let seg = gen::segment(&mut rng, o, true, true);
             let mut p = gen::parts_with(&mut rng, o, true, true);
